@@ -293,6 +293,11 @@ hwloc_memattr_register(hwloc_topology_t topology,
   char *name;
   unsigned i;
 
+  if (topology->adopted_shmem_addr) {
+    errno = EPERM;
+    return -1;
+  }
+
   /* check flags */
   if (flags & ~(HWLOC_MEMATTR_FLAG_NEED_INITIATOR|HWLOC_MEMATTR_FLAG_LOWER_FIRST|HWLOC_MEMATTR_FLAG_HIGHER_FIRST)) {
     errno = EINVAL;
@@ -958,6 +963,11 @@ hwloc_memattr_set_value(hwloc_topology_t topology,
                         hwloc_uint64_t value)
 {
   struct hwloc_internal_location_s iloc, *ilocp;
+
+  if (topology->adopted_shmem_addr) {
+    errno = EPERM;
+    return -1;
+  }
 
   if (flags || !target_node) {
     errno = EINVAL;
